@@ -322,3 +322,38 @@ func Harness_C07_macroExpansion() {
 	verifAssert(verifBytesEq(verifObjGet(stored, P[0]), verifMacroCasJSON(uint64(post.Cas))), "the CAS macro expands to the CAS this write stored")
 	verifAssert(verifBytesEq(verifObjGet(stored, P[1]), verifMacroCrcJSON(post.Value)), "the CRC32c macro expands to the checksum of the body as stored")
 }
+
+func Harness_C11_removeXattrs()       { stepXattr(pC11, xRemoveXattrs) }
+func Harness_C11_deleteSubDocPaths()  { stepXattr(pC11, xDeleteSubDocPaths) }
+func Harness_C11_updateXattrs()       { stepXattr(pC11, xUpdateXattrs) }
+func Harness_C11_writeResurrection()  { stepXattr(pC11, xWriteResurrection) }
+func Harness_C11_updateXattrDelBody() { stepXattr(pC11, xUpdateXattrDeleteBody) }
+func Harness_C11_setWithMeta()        { stepWithMeta(pC11, false) }
+func Harness_C11_deleteWithMeta()     { stepWithMeta(pC11, true) }
+func Harness_C11_remove()             { stepRemove(pC11, true) }
+func Harness_C11_update()             { stepUpdate(pC11) }
+
+// C07: a macro addressed to one xattr leaves another xattr written in the same call exactly
+// as given — for any two names (one may be a prefix of the other).
+func Harness_C07_macroOtherXattr() {
+	P := verifPropUniverse(2, map[string]any{}, 1)
+	k := kvBegin(pC07)
+	ctx := context.Background()
+	u, u1 := k.env.U[0], k.env.U[1]
+	verifAssume(verifAnd(validateXattrKey(u) == nil, validateXattrKey(u1) == nil))
+	verifAssume(!k.pre.Present) // the macro semantics do not depend on the prior document
+	xv, xv1 := verifBytes("xv"), verifBytes("xv1")
+	verifAssume(verifAnd(xv != nil, verifObjIs(xv), verifObjWellFormed(xv), len(xv) < 1000))
+	verifAssume(verifAnd(xv1 != nil, verifObjIs(xv1), verifObjWellFormed(xv1), len(xv1) < 1000))
+	verifPrefer(verifAnd(verifBytesEq(verifJSONCanon(xv), xv), verifBytesEq(verifJSONCanon(xv1), xv1)))
+	opts := &sgbucket.MutateInOptions{MacroExpansion: []sgbucket.MacroExpansionSpec{{Path: u + "." + P[0], Type: sgbucket.MacroCas}}}
+	_, err := k.c.WriteWithXattrs(ctx, k.key, 0, 0, []byte("{}"), map[string][]byte{u: xv, u1: xv1}, nil, opts)
+	post := k.post()
+	if err != nil {
+		k.failed("refused")
+		return
+	}
+	verifReach("applied")
+	verifAssert(verifBytesEq(verifObjGet(verifXattrGet(post.Xattrs, u), P[0]), verifMacroCasJSON(uint64(post.Cas))), "the CAS macro expands inside the addressed xattr")
+	verifAssert(verifBytesEq(verifXattrGet(post.Xattrs, u1), verifJSONCanon(xv1)), "an xattr that no macro addresses is stored exactly as given")
+}
